@@ -51,6 +51,9 @@ CHECKS = {
  "C15": ("exploration", "sequence numbers in payloads with an offline order checker per (publisher, publish QoS, delivered QoS, subscriber); retransmission order compared with the sender-side send log of the previous connection (broker and client library); first-arrival order over cut-and-resume cycles; callback order and service command order against a scripted broker",
          "60/1500 end-to-end runs (1-8 pipelining publishers, 1-4 subscribers, windows 1-10, perturbation), 150/4000 broker resend runs, 200/5000 backlog cut-and-resume runs, 150/3000 client resend runs, 100/2000 client inbound runs, 80/1500 service command runs (quick/thorough)",
          "schedules are those produced by the Go scheduler with perturbation at the backend boundary; duplicates (DUP) are ignored for first-arrival order", "2-C15"),
+ "C09": ("fault_enumeration", "offline checkers over the recorded event log of the client boundary (recording Session wrapper, logging Conn wrapper, scripted broker that logs an acknowledgement before writing it): SavePacket-before-send order, acknowledgement-before-future-success order, session content at rest, retransmission with DUP on resume; resolution poll of every future after the terminal call; goroutine-profile stuck detector around Close/Disconnect; accessor panic trap",
+         "all API sequences of length <=3 (sampled length 3 in quick, plus sampled length 4 and 2-8 concurrent callers in thorough) x 6 acknowledgement behaviours x 4 CONNACK behaviours x 4 terminal events x resume; for a deterministic subset every single client-side connection fault position (incl. the CONNECT) and every Session method failing at its 1st-3rd call",
+         "an acknowledgement of another kind carrying the live packet id is accepted as that id's acknowledgement (the client keys futures by id only); futures are polled with a retried 25 ms Wait because Wait selects randomly between a ready future and an expired timer", "2-C09"),
 }
 NOT_APPLICABLE = {}
 def main():
